@@ -26,7 +26,11 @@ Inductive obs :=
 (* [full] = built through NewMultiHashring (every endpoint must then carry
    SectionsPerNode hashes), otherwise through the export shim *)
 Inductive case :=
-| CKetama (full : bool) (eps : list (Z * list Z)) (rf : nat) (o : obs).
+| CKetama (full : bool) (eps : list (Z * list Z)) (rf : nat) (o : obs)
+(* a whole configuration file (several hashrings, hashmod / ketama / unknown algorithm,
+   shuffle sharding, tenants) loaded with ParseConfig + NewMultiHashring: only the
+   fact that loading returned (ring or error) is observed; a hang is reported by the harness *)
+| CConfig (returned_ring : bool).
 
 Definition obs_of (r : ketama_result) : option obs :=
   match r with
@@ -50,6 +54,7 @@ Definition corr_ok (c : case) : bool :=
   | CKetama full eps rf o =>
       option_eqb obs_eqb (obs_of (ketama_new_src eps rf)) (Some o)
       && (negb full || forallb (fun e => Z.of_nat (List.length (snd e)) =? SectionsPerNode)%Z eps)
+  | CConfig _ => true
   end.
 
 Fixpoint sorted_z (l : list Z) : bool :=
@@ -72,4 +77,5 @@ Definition pred_ok (c : case) : bool :=
   match c with
   | CKetama _ eps rf (OOk secs) => usable eps rf secs
   | CKetama _ _ _ OErr => true
+  | CConfig _ => true
   end.
